@@ -338,6 +338,7 @@ class BaseSection(base.Sectionable):
             self._parent.remove(self)
             self._parent = None
         elif self._validate_parent(new_parent):
+            base._check_not_own_ancestor(new_parent, self)
             if self._parent is not None:
                 self._parent.remove(self)
             self._parent = new_parent
@@ -517,6 +518,7 @@ class BaseSection(base.Sectionable):
         :param obj: Section or Property object.
         """
         if isinstance(obj, BaseSection):
+            base._check_not_own_ancestor(self, obj)
             self._sections.append(obj)
             obj._parent = self
         elif isinstance(obj, BaseProperty):
@@ -553,6 +555,9 @@ class BaseSection(base.Sectionable):
                 msg = "odml.Section.extend: Property with name '%s' already exists." % obj.name
                 raise KeyError(msg)
 
+            if isinstance(obj, BaseSection):
+                base._check_not_own_ancestor(self, obj)
+
         for obj in obj_list:
             self.append(obj)
 
@@ -570,6 +575,7 @@ class BaseSection(base.Sectionable):
                 raise ValueError("odml.Section.insert: "
                                  "Section with name '%s' already exists." % obj.name)
 
+            base._check_not_own_ancestor(self, obj)
             self._sections.insert(position, obj)
             obj._parent = self
         elif isinstance(obj, BaseProperty):
